@@ -353,6 +353,8 @@ def c06(ctx):
 def c11(ctx):
     reasm_component(ctx, "C11")
     files = xfer_traces(ctx, ["zwin", "pr", "lossy", "reorder", "il", "basic"], 160, 4000)
+    # stream resets with a reader that has not read everything yet (known finding F23 reproduces here)
+    files += reconfig_family(ctx, light=ctx.quick)
     ctx.validate(files)
 
 
@@ -537,17 +539,18 @@ def c08(ctx):
     ctx.validate(files)
 
 
-def reconfig_family(ctx):
+def reconfig_family(ctx, light=False):
     """Reconfig.tla engine slice (stream reset protocol for one identifier incl. re-opening, lost/re-ordered RE-CONFIG
     packets, reconfig timer): exhaustive TLC on the model of the code as fixed, negative controls for the two defects
     it found (F21, F22), and TLC behaviours (breadth-first export + the negative controls' counterexamples) replayed
     content-keyed on real associations; the recorded traces are judged by ObsTrace."""
     binp = ctx.harness()
-    ctx.tlc_design("Reconfig", "MC_Reconfig_fixed.cfg" if ctx.quick else "MC_Reconfig_fixed3.cfg", timeout=3000, heap="12g")
+    if not light:
+        ctx.tlc_design("Reconfig", "MC_Reconfig_fixed.cfg" if ctx.quick else "MC_Reconfig_fixed3.cfg", timeout=3000, heap="12g")
     paths = []
     for cfg, inv in (("MC_Reconfig_pinned_f21.cfg", "EofOnlyAfterCloseP"), ("MC_Reconfig_pinned_f22.cfg", "NoMidStreamRenumberingP")):
         paths.append(tlc_behaviours(ctx, "Reconfig", cfg, 1, 1, workers=1, expect_violation=inv)[0])
-    for d, cap in ((11, 240), (13, 360)) if ctx.quick else ((11, None), (13, None), (15, 6000)):
+    for d, cap in ((11, 150),) if light else ((11, 240), (13, 360)) if ctx.quick else ((11, None), (13, None), (15, 6000)):
         paths.append(tlc_behaviours(ctx, "Reconfig", "MC_Reconfig_emit%d.cfg" % d, 1, d, workers=4, bfs=True, cap=cap, timeout=1200)[0])
     allb = os.path.join(ctx.scr.mkdir("rr"), "behaviours.jsonl")
     with open(allb, "w") as f:
